@@ -110,7 +110,9 @@ class Contract:
         entry_facts=None,
         exit_facts=None,
         allocates=False,
+        locals=None,
     ):
+        self.locals = locals or {}  # static types of container-valued locals ([] / set() / {} literals)
         self.entry_facts = entry_facts  # fn(c) -> [Fact] assumed at function entry (verification only)
         self.exit_facts = exit_facts  # fn(c) -> [Fact] assumed before the exit obligations
         self.allocates = allocates
